@@ -16,6 +16,9 @@ Step(e) ==
             ELSE IF m \in {"now", "dup"} /\ e.res # "ok" THEN Flag("answered_request_reported_" \o (IF e.res = "timeout" THEN "timeout" ELSE "error"))
             ELSE IF m \in {"late", "never"} /\ e.res = "ok" THEN Flag("unanswered_request_returned_ok")
             ELSE IF m \in {"late", "never"} /\ e.res # "timeout" THEN Flag("unanswered_request_not_reported_as_timeout")
+            \* "a timely error": not before the configured timeout, and not an order of magnitude after it
+            ELSE IF e.res = "timeout" /\ "ms" \in DOMAIN e /\ e.ms + 25 < e.timeout_ms THEN Flag("timeout_reported_before_the_configured_time")
+            ELSE IF e.res = "timeout" /\ "ms" \in DOMAIN e /\ e.ms > 10 * e.timeout_ms + 3000 THEN Flag("timeout_reported_far_too_late")
             ELSE nret' = nret + 1 /\ UNCHANGED <<skip, run, nviol, modes>>
       [] e.ev = "later_ret" ->
             IF e.res = "ok" /\ ~e.own THEN Flag("late_reply_handed_to_later_request")
